@@ -34,7 +34,8 @@ THEOREMS = {
             "C17_state_recv_eof_surfaces", "C17_state_set_reset_surfaces", "C17_state_scheduled_reset_surfaces",
             "C17_state_error_persists", "C17_state_first_error_wins", "C17_state_nonvacuous"],
     "C07": ["C07_state_connection_end_closes_forever", "C07_state_closed_forever", "C07_state_closed_never_pending",
-            "C07_state_completed_message_after_connection_end", "C07_state_recv_reset_keeps_end_stream",
+            "C07_state_completed_message_after_connection_end", "C07_state_fix_needed",
+            "C07_state_recv_reset_keeps_end_stream",
             "C07_state_nonvacuous"],
 }
 MODULE = "H2V.Properties.StreamState"
@@ -47,9 +48,8 @@ PARTIAL = [
     "stream leaves it ReservedRemote; recv_reset/set_reset on a record still Idle; set_reset on a Closed record",
     "refusals of recv_open/recv_close are always the connection error PROTOCOL_ERROR, also where RFC 9113 5.1 only "
     "asks for a stream error STREAM_CLOSED (half-closed (remote), closed): stricter than required, not a violation",
-    "C07: a stream in HalfClosedRemote (peer's message complete, ours not) that is hit by handle_error/recv_eof "
-    "becomes Closed(Error): buffered frames are still delivered but the read then ends with the error instead of "
-    "the clean end (unlike recv_reset, which keeps END_STREAM as ErrorAfterEndStream)",
+    "C07: the clean end of a completely received message survives recv_reset, handle_error and recv_eof "
+    "(ErrorAfterEndStream); it is still forgotten by the local calls set_reset / set_scheduled_reset",
 ]
 
 PREAMBLE = ("From H2V Require Import Base.Tac Base.Bytes Model.StreamState.\n"
@@ -593,13 +593,17 @@ def oracle_transition(line):
                 V("C17", "%s replaced the cause of a closed stream" % m)
                 V("C07", "%s replaced the cause of a closed stream" % m)
         elif m == "handle_error":
-            if t != ("Closed", ("Error", op_error(o))):
+            if not (t[0] == "Closed" and t[1][0] in ("Error", "ErrorAfterEndStream") and t[1][1] == op_error(o)):
                 V("C17", "handle_error did not record the error intact: %s" % line["state"])
         else:
-            if not (t[0] == "Closed" and t[1][0] == "Error" and t[1][1][0] == "Io" and t[1][1][1] == "BrokenPipe"):
+            if not (t[0] == "Closed" and t[1][0] in ("Error", "ErrorAfterEndStream") and t[1][1][0] == "Io"
+                    and t[1][1][1] == "BrokenPipe"):
                 V("C17", "recv_eof did not record an Io/BrokenPipe error: %s" % line["state"])
-        if f[0] == "HalfClosedRemote" and t[0] == "Closed" and t[1][0] == "Error":
-            dev.append(("C07", "HalfClosedRemote + %s: received END_STREAM forgotten (read ends with the error)" % m))
+        if f[0] != "Closed" and t[0] == "Closed" and (t[1][0] == "ErrorAfterEndStream") != recv_ended(f):
+            if recv_ended(f):
+                V("C07", "%s forgot the received END_STREAM: a complete message no longer ends cleanly" % m)
+            else:
+                V("C17", "%s hides the error from readers although the peer's message was not complete" % m)
     elif m == "set_reset":
         if t != ("Closed", ("Error", ("Reset", o["sid"], o["reason"], o["init"]))):
             V("C17", "set_reset did not record the reset intact: %s" % line["state"])
